@@ -1650,6 +1650,8 @@ fn delete_git_ref(
     git_ref_name: &GitRefName,
     old_oid: &gix::oid,
 ) -> Result<(), FailedRefExportReason> {
+    #[cfg(feature = "verif-hooks")]
+    crate::verif_hooks::crash_point("git.export.before_delete_ref");
     let Some(git_ref) = git_repo
         .try_find_reference(git_ref_name.as_str())
         .map_err(|err| FailedRefExportReason::FailedToDelete(err.into()))?
@@ -1747,6 +1749,8 @@ fn update_git_ref(
     new_commit_oid: gix::ObjectId,
     new_ref_oid: Option<gix::ObjectId>,
 ) -> Result<(), FailedRefExportReason> {
+    #[cfg(feature = "verif-hooks")]
+    crate::verif_hooks::crash_point("git.export.before_update_ref");
     match old_commit_oid {
         None => create_git_ref(git_repo, git_ref_name, new_commit_oid, new_ref_oid),
         Some(old_oid) => move_git_ref(git_repo, git_ref_name, old_oid, new_commit_oid, new_ref_oid),
